@@ -251,7 +251,7 @@ def highlight_pass_lemma(run):
         call = "add_dots_to_braille_char(ch)"
     else:
         raise _sl.SliceError("add_dots_to_braille_char: cannot tell how highlight_braille_string calls it (parameters %r)" % sig)
-    crate = _kr.Crate("c07hl", HL_SHIM.replace("ADD_DOTS_FN", add.text).replace("HACK_STMT", hack_text).replace("CALL_EXPR", call))
+    crate = _kr.Crate("c07pass", HL_SHIM.replace("ADD_DOTS_FN", add.text).replace("HACK_STMT", hack_text).replace("CALL_EXPR", call))
     run.bound("K-C07-e", "add_dots_to_braille_char verbatim with the statement that decides its baseline-indicator flag; every char x BrailleCode in {Nemeth, UEB, CMU, Vietnam}")
     run.assume("K-C07-e: PreferenceManager reduced to the BrailleCode preference (solver-selected among four literal codes)")
     return crate, dict(id="K-C07-e.highlight_pass_rewrites_only_cells", harness="highlight_pass_rewrites_only_cells", api=lambda v, o: api_hl(),
